@@ -25,6 +25,7 @@ WORLDS = {  # name -> (Items, InitStates, layers)
     "set": ("ItemsSet", "InitsSet", ("set",)),
     "mx": ("ItemsMX", "InitsMX", ("rds", "rrset")),
     "ns": ("ItemsNS", "InitsNS", ("rds", "rrset")),
+    "generic": ("ItemsGeneric", "InitsGeneric", ("rds", "rrset")),
     "cname": ("ItemsCNAME", "InitsCNAME", ("rds", "rrset")),
     "soa": ("ItemsSOA", "InitsSOA", ("rds", "rrset")),
     "mixed": ("ItemsMixed", "InitsMixed", ("rds", "rrset")),
@@ -199,7 +200,7 @@ def run_models(ctx, quick):
     jobs = [("laws-all-configurations",
              mc_cfg(ctx, "mc_all.cfg", "AllItems", "AllConfigurations", 1, handles="{1, 2}", props=False))]
     for w, (items, inits, _) in WORLDS.items():
-        if quick and w in ("ns", "soa"):
+        if quick and w in ("ns", "soa", "generic"):
             continue  # same structure as mx / cname; thorough runs them
         depth = 3 if quick else 4
         jobs.append(("histories-%s-level%d" % (w, depth), mc_cfg(ctx, "mc_%s.cfg" % w, items, inits, depth)))
